@@ -23,6 +23,12 @@ The flag says what happens to the symbols reached through *datatypes* (`tsym`, `
 `TypedSymbol.copy` passes the same datatype object on and `_refine_copy` only walks `Reference`
 and `Loop` nodes.  `deployed` is the mode the check compares the real code with.
 
+Interface objects (`symbol.interface`) are identities too: `TypedSymbol.copy`, `DataSymbol.copy`,
+`RoutineSymbol.copy`, `DataTypeSymbol.copy` and `GenericInterfaceSymbol.copy` hand the interface
+object of the original to the copy (shared), `Symbol.copy`/`ContainerSymbol.copy` copy it and
+`deep_copy` gives imported symbols a new `ImportInterface` (`freshIface`).  `access` is the mutable
+state of an interface object (`ArgumentInterface.access`), part of the written declaration.
+
 Edits are addressed by identity, as in Python: an edit of node `p` changes every node labelled
 `p` wherever it is, so "the other tree is unaffected" is a theorem about sharing, not a
 definitional triviality.  Core Lean only. -/
@@ -50,8 +56,19 @@ inductive Forest where
 structure World where
   name : Nat → Nat
   deps : Nat → List Nat
+  /-- the interface OBJECT of a symbol (`symbol.interface`, an identity) -/
+  iface : Nat → Nat
+  /-- does `symbol.copy()` create a new interface object?  True for generic `Symbol`s and
+  `ContainerSymbol`s (`Symbol.copy` copies the interface) and for imported symbols (`deep_copy`
+  gives them a new `ImportInterface`); false for the other `TypedSymbol`s, `DataTypeSymbol`s …,
+  whose `copy()` passes the same interface object on -/
+  freshIface : Nat → Bool
+  /-- the mutable attribute of an interface object (`ArgumentInterface.access`, …) -/
+  access : Nat → Nat
   /-- all symbol identities in use are `< nsym` -/
   nsym : Nat
+  /-- all interface identities in use are `< nif` -/
+  nif : Nat
   /-- all node identities in use are `< nnode` -/
   nnode : Nat
   /-- the detached trees (roots) -/
@@ -120,7 +137,7 @@ structure VNode where
   kind : Nat
   sym : Option Nat
   tsym : Option Nat
-  table : Option (List (Nat × List Nat))
+  table : Option (List (Nat × List Nat × Nat))
   deriving DecidableEq, Repr
 
 inductive VForest where
@@ -132,7 +149,7 @@ def viewNode (W : World) (n : NodeRec) : VNode :=
   { kind := n.kind
     sym := n.sym.map W.name
     tsym := n.tsym.map W.name
-    table := n.table.map (fun l => l.map (fun s => (W.name s, (W.deps s).map W.name))) }
+    table := n.table.map (fun l => l.map (fun s => (W.name s, (W.deps s).map W.name, W.access (W.iface s)))) }
 
 def view (W : World) : Forest → VForest
   | .nil => .nil
@@ -170,7 +187,14 @@ def copy (fixed : Bool) (W : World) (r : Nat) : World :=
   { name := fun x => if isNew own W.nsym x then W.name (x - W.nsym) else W.name x
     deps := fun x => if isNew own W.nsym x then (W.deps (x - W.nsym)).map (rhoT fixed own W.nsym)
                      else W.deps x
+    iface := fun x => if isNew own W.nsym x then
+                        (if W.freshIface (x - W.nsym) then W.iface (x - W.nsym) + W.nif
+                         else W.iface (x - W.nsym))
+                      else W.iface x
+    freshIface := fun x => if isNew own W.nsym x then W.freshIface (x - W.nsym) else W.freshIface x
+    access := fun i => if W.nif ≤ i then W.access (i - W.nif) else W.access i
     nsym := W.nsym + W.nsym
+    nif := W.nif + W.nif
     nnode := W.nnode + W.nnode
     trees := W.trees ++ [copyTree fixed W r] }
 
@@ -212,8 +236,11 @@ inductive Edit where
   | rename (p : Nat) (s : Nat) (n : Nat)
   /-- `s.datatype = …` / `s.initial_value = …`: the symbols used become `ds` -/
   | setDeps (s : Nat) (ds : List Nat)
-  /-- `p.symbol_table.new_symbol(n, …)` with datatype dependencies `ds` -/
-  | addSym (p : Nat) (n : Nat) (ds : List Nat)
+  /-- `p.symbol_table.new_symbol(n, …)` with datatype dependencies `ds`; the symbol gets a new
+  interface object; `fr` = its class copies the interface in `copy()` -/
+  | addSym (p : Nat) (n : Nat) (ds : List Nat) (fr : Bool)
+  /-- `symbol.interface.access = v` for the interface object `i` -/
+  | setAccess (i : Nat) (v : Nat)
   /-- `p.symbol_table.remove(s)` -/
   | removeSym (p : Nat) (s : Nat)
   /-- `p.symbol = s` -/
@@ -233,10 +260,15 @@ def apply (W : World) : Edit → World
              trees := W.trees.map (Forest.map (updNode p fun m =>
                { m with table := m.table.map (fun l => if l.contains s then l.erase s ++ [s] else l) })) }
   | .setDeps s ds => { W with deps := fun x => if x = s then ds else W.deps x }
-  | .addSym p n ds =>
+  | .setAccess i v => { W with access := fun x => if x = i then v else W.access x }
+  | .addSym p n ds fr =>
     { name := fun x => if x = W.nsym then n else W.name x
       deps := fun x => if x = W.nsym then ds else W.deps x
+      iface := fun x => if x = W.nsym then W.nif else W.iface x
+      freshIface := fun x => if x = W.nsym then fr else W.freshIface x
+      access := W.access
       nsym := W.nsym + 1
+      nif := W.nif + 1
       nnode := W.nnode
       trees := W.trees.map (Forest.map (updNode p fun m =>
         { m with table := m.table.map (· ++ [W.nsym]) })) }
@@ -260,7 +292,8 @@ def run (W : World) (es : List Edit) : World := es.foldl apply W
 def Edit.nodes : Edit → List Nat
   | .rename p _ _ => [p]
   | .setDeps _ _ => []
-  | .addSym p _ _ => [p]
+  | .addSym p _ _ _ => [p]
+  | .setAccess _ _ => []
   | .removeSym p _ => [p]
   | .setSym p _ => [p]
   | .setTSym p _ => [p]
@@ -273,22 +306,32 @@ def Edit.symbols : Edit → List Nat
   | .setDeps s _ => [s]
   | _ => []
 
+/-- the interface objects whose attribute an edit changes -/
+def Edit.ifaces : Edit → List Nat
+  | .setAccess i _ => [i]
+  | _ => []
+
 /-! ## well-formedness of a world (what the allocation counters mean) -/
 
 structure WF (W : World) : Prop where
   ids_lt : ∀ t ∈ W.trees, ∀ i ∈ t.ids, i < W.nnode
   syms_lt : ∀ t ∈ W.trees, ∀ s ∈ t.syms ++ t.tsyms ++ t.owned, s < W.nsym
   deps_lt : ∀ s d, d ∈ W.deps s → d < W.nsym
+  iface_lt : ∀ s, W.iface s < W.nif
 
 /-- executable version for concrete worlds (symbols `< nsym` only) -/
 def wfCheck (W : World) : Bool :=
   W.trees.all (fun t => t.ids.all (· < W.nnode) && (t.syms ++ t.tsyms ++ t.owned).all (· < W.nsym)) &&
-  (List.range W.nsym).all (fun s => (W.deps s).all (· < W.nsym))
+  (List.range W.nsym).all (fun s => (W.deps s).all (· < W.nsym) && decide (W.iface s < W.nif))
 
 /-- no datatype inside the subtree uses a symbol declared inside the subtree: the side condition
 under which the pinned code is correct -/
 def NoSymbolInDatatype (W : World) (S : Forest) : Prop :=
   (∀ s ∈ S.tsyms, s ∉ S.owned) ∧ (∀ s ∈ S.owned, ∀ d ∈ W.deps s, d ∉ S.owned)
+
+/-- the interface objects that the copy of the subtree shares with the original -/
+def sharedIfaces (W : World) (S : Forest) : List Nat :=
+  (S.owned.filter (fun s => !W.freshIface s)).map W.iface
 
 def noSymbolInDatatypeB (W : World) (S : Forest) : Bool :=
   S.tsyms.all (fun s => !S.owned.contains s) &&
